@@ -36,7 +36,7 @@ TECHNIQUE = "input-snapshot monitors + differential replay against a pristine-in
 RULE = ("work items = {serialize -> parse -> convert of generated instances of all classes in rotating wire forms; direct from_etree of to_etree "
         "trees (every class as root, incl. groom-overriding MFINFO/STOCKINFO/MAIL with the renamed child present); failing inputs (truncated and "
         "mis-nested documents); type conversions that re-register dispatch handlers}. Each item runs (a) in a pristine child process, (b) in a "
-        "dirty process: shuffled, after failing items, 3x in a row, (c) under 2/4/8/16 threads with yield injection. A case = (item, phase); "
+        "dirty process: shuffled, after failing items, 3x in a row, (c) under 2/4/8/16 threads with yield injection, (d) in a fresh interpreter whose 8 (2/8/16) threads are released together before every item, so that the first use of every class is raced; items of kind 'limits' offer one shared pool of texts to string elements with different limits. A case = (item, phase); "
         "non-trivial = result compared with the pristine baseline")
 ASSUMPTIONS = ["canonical results: fingerprints of bytes, reference-shaped element tree and modelwalk snapshot; failing inputs compare by exception type",
                "thread schedules are whatever the GIL + injected yields produced; the evidence reports the switches observed (never 'all interleavings')",
@@ -47,9 +47,9 @@ LEVEL_TEXT = ("Exploration by stress: purity is checked by snapshots around ever
 LEVEL_NOTE = "CPython 3.12 with the GIL: data races below bytecode granularity cannot occur; what is explored is interleaving at line granularity inside ofxtools code."
 DESIGN_REF = "DESIGN.md §3 C17"
 MIN_COUNTERS = {"quick": {"baseline_items": 800, "dirty_results_compared": 2400, "thread_results_compared": 800, "input_snapshots_compared": 5000,
-                          "cross_thread_switches": 400, "switch_edges": 20},
+                          "cross_thread_switches": 400, "switch_edges": 20, "cold-thread_results_compared": 1500, "cold_cross_thread_switches": 400},
                 "thorough": {"baseline_items": 6000, "dirty_results_compared": 18000, "thread_results_compared": 12000, "input_snapshots_compared": 40000,
-                             "cross_thread_switches": 3000, "switch_edges": 40}}
+                             "cross_thread_switches": 3000, "switch_edges": 40, "cold-thread_results_compared": 15000, "cold_cross_thread_switches": 3000}}
 
 # classes whose documents contain warn-only strings (over-long values are accepted with a warning - also while other threads write)
 NAG_CLASSES = {"BANKACCTFROM", "BANKACCTTO", "CCACCTFROM", "CCACCTTO", "INVACCTFROM", "INVACCTTO", "PAYEE", "STMTTRN", "SECINFO", "STMTRS", "CCSTMTRS", "INVSTMTRS",
@@ -86,7 +86,38 @@ def make_items(seed, shard, nshards, tier):
                 items.append({"id": f"bad/{name}/{p}", "kind": "failing", "cls": name, "seedstr": seedstr, "form": (ci + 3) % 6, "fault": ci % 3})
     for j in range(8 if tier == "quick" else 40):
         items.append({"id": f"ty/{shard}/{j}", "kind": "types", "seedstr": f"C17t/{seed}/{shard}/{j}"})
+    # the SAME texts offered to string elements with different limits (one element per item, so that the order of wide and narrow
+    # elements differs between the pristine run, the shuffled runs and the threads)
+    strs = string_elements()
+    for j in range(24 if tier == "quick" else 120):
+        cname, attr = strs[(shard * 131 + j * 17 + seed) % len(strs)]
+        items.append({"id": f"lim/{cname}.{attr}", "kind": "limits", "cls": cname, "attr": attr, "seedstr": "shared-pool"})
+    seen = set()
+    items = [it for it in items if not (it["id"] in seen or seen.add(it["id"]))]
     return items
+
+
+_STRS = []
+
+
+def string_elements():
+    """(class, attribute) of every bounded, strict string element - sorted, stable."""
+    if not _STRS:
+        from ofxtools import Types as T
+        for name, cls in sorted(ref_decl.all_classes().items()):
+            for k, d in ref_decl.decl(cls).items():
+                if type(d) is T.String and d.length:
+                    _STRS.append((name, k))
+    return _STRS
+
+
+def text_pool():
+    """Texts of the lengths at which the models' limits sit (and one more), identical for every item and every process."""
+    pool = []
+    for n in (1, 2, 3, 4, 5, 6, 7, 8, 9, 10, 11, 12, 13, 16, 17, 20, 21, 22, 23, 32, 33, 36, 37, 40, 41, 64, 65, 80, 81, 255, 256):
+        pool.append(("POOLTEXT-" * 30)[:n])
+        pool.append(("R&D;<x> " * 40)[:n])
+    return pool
 
 
 def etree_snap(e):
@@ -140,6 +171,20 @@ def run_item(item, imm):
         return fp(out)
     cls = ref_decl.all_classes()[item["cls"]]
     rng = random.Random(item["seedstr"])
+    if kind == "limits":
+        desc = ref_decl.decl(cls)[item["attr"]]
+        out = []
+        for text in text_pool():
+            try:
+                got = desc.convert(text)
+                out.append(("ok", got))
+                if "&" not in text:
+                    imm.check("string-over-limit-accepted-or-altered", (len(text) <= desc.length, text), (True, got), dict(item, text=text))
+            except Exception as e:
+                out.append(("raised", type(e).__name__))
+                if "&" not in text:
+                    imm.check("string-within-limit-refused", len(text) > desc.length, True, dict(item, text=text))
+        return fp(out)
 
     def nag(r, desc, clsname, attr):
         from ofxtools import Types as T
@@ -256,6 +301,81 @@ def baseline_main(argv):
         json.dump({"results": res, "imm_compared": imm.compared, "imm_violations": [(w, i) for w, i, _ in imm.violations], "state": state_fp()}, f)
 
 
+def coldthreads_main(argv):
+    """A fresh interpreter in which T threads make the FIRST use of every class at the same moment: all threads run the same items
+    in the same order (each on objects of its own), released together before every item, with yield injection inside ofxtools."""
+    seed, shard, nshards, tier, out, T, only = int(argv[0]), int(argv[1]), int(argv[2]), argv[3], argv[4], int(argv[5]), argv[6]
+    sys.path.insert(0, os.environ["VF_REPO"])
+    from vf.monitors.linemon import LineMon
+
+    items = [it for it in make_items(seed, shard, nshards, tier) if it["kind"] in ("from_etree", "roundtrip", "nagread", "limits")]
+    if only != "-":
+        items = [it for it in items if it["id"] == only]
+    elif tier == "quick":
+        items = [it for it in items if it["kind"] != "roundtrip"][: 30]
+    items = [it for it in items if it.get("cls") != "OFX" or only != "-"]  # whole-OFX instances cost minutes under 8 instrumented threads
+    imm = Imm()
+    results = [dict() for _ in range(T)]
+    deadline = time.time() + (45 if tier == "quick" else 400)
+    stop = [False]
+
+    def decide():
+        stop[0] = time.time() > deadline  # taken by one thread while all wait: every thread sees the same decision
+
+    barrier = threading.Barrier(T, action=decide)
+    sys.setswitchinterval(1e-6)
+    lm = LineMon(os.environ.get("VF_REPO", "/repo"), p_yield=0.02, seed=seed)
+
+    def worker(k):
+        for it in items:
+            try:
+                barrier.wait(timeout=120)
+            except threading.BrokenBarrierError:
+                return
+            if stop[0]:
+                return
+            try:
+                results[k][it["id"]] = run_item(it, imm)
+            except Exception as e:
+                results[k][it["id"]] = ["item-raised", type(e).__name__, str(e)[:100]]
+
+    with lm:
+        ths = [threading.Thread(target=worker, args=(k,)) for k in range(T)]
+        for t in ths:
+            t.start()
+        for t in ths:
+            t.join(timeout=600)
+    with open(out, "w") as f:
+        json.dump({"results": results, "items": [it["id"] for it in items], "imm_violations": [(w, i) for w, i, _ in imm.violations], "imm_compared": imm.compared,
+                   "events": lm.events, "switches": lm.switches, "edges": len(lm.edges), "alive": sum(t.is_alive() for t in ths)}, f)
+
+
+def cold_phase(ctx, items, base, T, only="-"):
+    out = os.path.join(ctx.scratch, f"cold{T}.json")
+    cmd = [sys.executable, "-m", "vf.checks.c17", "coldthreads", str(ctx.seed), str(ctx.shard), str(ctx.nshards), ctx.tier, out, str(T), only]
+    try:
+        subprocess.run(cmd, timeout=max(90, ctx.time_left() * 0.5), check=True, stdout=subprocess.PIPE, stderr=subprocess.PIPE)
+        doc = json.load(open(out))
+    except Exception as e:
+        ctx.inconclusive_because(f"cold-threads child failed: {e!r} {(getattr(e, 'stderr', None) or b'')[-300:]!r}")
+        return
+    if doc["alive"]:
+        ctx.inconclusive_because("cold-threads child: threads still alive at the watchdog")
+    byid = {it["id"]: it for it in items}
+    for k, res in enumerate(doc["results"]):
+        for iid, got in res.items():
+            if base.get(iid, [None])[:1] == ["item-raised"]:
+                continue
+            compare(ctx, "cold-thread", byid[iid], got, base)
+            ctx.distinct(("cold", T, k, iid))
+    for w, i in doc["imm_violations"]:
+        ctx.violation(f"input-mutated/{w}", f"{i}: {w} (cold threads)", {"item": byid[i], "phase": "cold-thread"})
+    ctx.count("input_snapshots_compared", doc["imm_compared"])
+    ctx.count("cold_first_uses_raced", len(doc["items"]))
+    ctx.count("cold_line_events", doc["events"])
+    ctx.count("cold_cross_thread_switches", doc["switches"])
+
+
 def compare(ctx, phase, item, got, base):
     want = base.get(item["id"])
     ctx.ev()
@@ -353,6 +473,9 @@ def run_shard(ctx):
     for (T, iid), (it, got) in results.items():
         compare(ctx, "thread", it, got, base)
         ctx.distinct(("thread", T, iid))
+    # ---- (iii-b) the same under threads in a FRESH interpreter: first use of every class raced by all threads
+    for T in ((8,) if ctx.tier == "quick" else (2, 8, 16)):
+        cold_phase(ctx, items, base, T)
     # ---- (ii-c) once more sequentially AFTER the threads have gone: nothing they did may linger
     for it in [x for x in good if x["kind"] == "nagread"] + rng.sample(good, min(40, len(good))):
         try:
@@ -380,6 +503,11 @@ def run_shard(ctx):
 def replay(ctx, case):
     imm = Imm()
     it = case["item"]
+    if case.get("phase") == "cold-thread":
+        # the pristine answer comes from one sequential run here; the raced answers from a fresh 8-thread interpreter
+        base = {it["id"]: run_item(it, imm)}
+        cold_phase(ctx, [it], base, 8, only=it["id"])
+        return
     out = os.path.join(ctx.scratch, "b.json")
     ctx.ev()
     r1 = run_item(it, imm)
@@ -394,3 +522,5 @@ def replay(ctx, case):
 if __name__ == "__main__":
     if sys.argv[1] == "baseline":
         baseline_main(sys.argv[2:])
+    elif sys.argv[1] == "coldthreads":
+        coldthreads_main(sys.argv[2:])
